@@ -37,7 +37,7 @@ mod proofs {
   /// concrete (heap containers with symbolic *sizes* exhaust the SAT back end: a first
   /// version with symbolic sizes ran out of 24 GB); the *contents* of the text and of the
   /// inserted bytes stay symbolic, so row/column bookkeeping is decided for every text.
-  fn one_case(len: usize, pos: usize, del: usize, ilen: usize) {
+  fn one_case(len: usize, pos: usize, del: usize, ilen: usize, multibyte: bool) {
     mock_ts::reset_queue();
     let mut buf = [b'a'; 4];
     let mut i = 0;
@@ -50,10 +50,15 @@ mod proofs {
     let mut ins = [b'b'; 2];
     let mut i = 0;
     while i < 2 {
-      if i < ilen && kani::any() {
+      if !multibyte && i < ilen && kani::any() {
         ins[i] = b'\n';
       }
       i += 1;
+    }
+    // the inserted text is one two-byte character (byte counts != char counts); concrete, so
+    // that any UTF-8 decoding the code under test does on it folds
+    if multibyte {
+      ins = [0xC3, 0xA9];
     }
     let old = as_str(&buf, len);
     let mut g = mk_grep(old, single_node(&buf[..len], 0, len as u32));
@@ -99,7 +104,9 @@ mod proofs {
     let p = point_of(new, pos + ilen);
     assert!(e.new_end_position == Point::new(p.0, p.1));
     if pos == len / 2 && del == len - pos && ilen == 2 {
-      kani::cover!(e.new_end_position.row() > e.start_position.row());
+      if !multibyte {
+        kani::cover!(e.new_end_position.row() > e.start_position.row());
+      }
       kani::cover!(e.new_end_byte > e.start_byte);
     }
     // tree-sitter contract: one Tree::edit per text change
@@ -115,13 +122,36 @@ mod proofs {
       while del <= len - pos {
         let mut ilen = 0;
         while ilen <= 2 {
-          one_case(len, pos, del, ilen);
+          one_case(len, pos, del, ilen, false);
           ilen += 1;
         }
         del += 1;
       }
       pos += 1;
     }
+  }
+
+  /// inserting the two-byte character U+00E9 at every position / deleted length
+  fn multibyte_cases(len: usize) {
+    let mut pos = 0;
+    while pos <= len {
+      let mut del = 0;
+      while del <= len - pos {
+        one_case(len, pos, del, 2, true);
+        del += 1;
+      }
+      pos += 1;
+    }
+  }
+  #[kani::proof]
+  #[kani::unwind(7)]
+  fn c10_input_edit_multibyte_len1() {
+    multibyte_cases(1);
+  }
+  #[kani::proof]
+  #[kani::unwind(7)]
+  fn c10_input_edit_multibyte_len2() {
+    multibyte_cases(2);
   }
 
   macro_rules! len_harness {
